@@ -451,6 +451,10 @@ def run_impl(stream, case):
         return with_alarm(stream.impl_timeout, stream.impl, case)
     except Timeout:
         return ["impl-timeout"]
+    except RecursionError:
+        return ["impl-exception", "RecursionError"]
+    except Exception as e:  # noqa  an exception the stream did not expect: part of the observation
+        return ["impl-exception", type(e).__name__]
 
 
 def run_stream(stream, rng, tier, findings, budget_scale=1.0):
